@@ -446,7 +446,13 @@ def oracle(jobs, order_error, graph, steps, names):
         up = set(jobs[js[0]].getUpstreamJobs())
         for d in nodes[i]["vdeps"]:
             dj = vid2job.get(nodes[d]["vid"], [])
-            if len(dj) == 1 and dj[0] != js[0] and dj[0] not in up:
+            if not dj:
+                # an upstream reference by name may still exist (a job of that name builds *another* variant,
+                # e.g. the same tool in another sandbox context): it does not resolve to a job that builds this package
+                out.append({"what": "job %s builds %s but its dependency %s (%s) is built by no job"
+                                    % (js[0], nodes[i]["stack"], nodes[d]["stack"], nodes[d]["vid"][:8]),
+                            "sig": "dependency-built-by-no-job"})
+            elif len(dj) == 1 and dj[0] != js[0] and dj[0] not in up:
                 out.append({"what": "job %s builds %s but does not depend on job %s of its dependency %s"
                                     % (js[0], nodes[i]["stack"], dj[0], nodes[d]["stack"]), "sig": "missing-upstream-job"})
     for name, job in jobs.items():
@@ -483,7 +489,7 @@ def oracle(jobs, order_error, graph, steps, names):
 
 def _natural_names(nodes, job):
     """names a job can have before numbering: its recipe, its package name, the common dash-prefix"""
-    out = set(nodes[i]["recipe"] for i in job) | set(nodes[i]["name"] for i in job)
+    out = set(nodes[i]["recipe"] for i in job)
     parts = [nodes[i]["name"].split("-") for i in job]
     common = []
     for col in zip(*parts):
